@@ -107,6 +107,21 @@ pub fn check_traj(c: &TrajCase, ctx: &mut Ctx) -> CheckResult {
             // the last iterate of a run that the solver itself abandons with NumericalError (its own
             // interiority test in the scaling update rejected it): within 1e-9 relative this is the rounding
             // of a step-length computation at a point ~1e-12 from the boundary, reported through the status
+            // a block whose previous iterate was already within 1e-9 (relative) of the boundary: the distance to
+            // the boundary along the step is the root of a quadratic whose constant term has lost all digits
+            // (c = t^2 - |u|^2 evaluated at relative margin 1e-12), so the step cannot be placed more accurately
+            // than ~1e-9 |s|.  Such runs have been driven to mu ~ 1e-15 with refinement / regularisation off.
+            if idx > 0 {
+                let prev = heads[idx - 1];
+                let (pms, pss) = primal_margin(k, &prev.s[rng.clone()]);
+                let (pmz, psz) = dual_margin(k, &prev.z[rng.clone()]);
+                let rel_s = pms / (pss + norm_inf(&prev.s[rng.clone()])).max(1e-300);
+                let rel_z = pmz / (psz + norm_inf(&prev.z[rng.clone()])).max(1e-300);
+                if rel_s < 1e-9 || rel_z < 1e-9 {
+                    start += 1e-9 * (norm_inf(sv) + norm_inf(zv));
+                    ctx.label("previous-iterate-within-1e-9-of-boundary(1e-9 allowance)");
+                }
+            }
             if full.status == SolverStatus::NumericalError && idx + 1 == heads.len() {
                 start += 1e-9 * (norm_inf(sv) + norm_inf(zv));
                 ctx.label("last-iterate-of-numerical-error-run(1e-9 allowance)");
